@@ -23,29 +23,30 @@ import (
 
 func main() {
 	cli.Main(map[string]cli.RunFn{
-		"extract":   func(out string, _ int64, _ string) error { return extract.Run(cli.Repo, out) },
-		"time":      engtime.Run,
-		"node":      engnode.Run,
-		"net":       engnode.RunNet,
-		"reshare":   engnode.RunReshare,
-		"serve":     engnode.RunServe,
-		"bootstrap": engnode.RunBootstrap,
-		"httpwait":  enghttp.Run,
-		"cache":     engcache.Run,
-		"cbstore":   engcbstore.Run,
-		"stream":    engstream.Run,
-		"sync":      engsync.Run,
-		"dkgrun":    engdkgrun.Run,
-		"dkgsm":     engdkg.Run("dkgsm", "C08"),
-		"dkgsig":    engdkg.Run("dkgsig", "C09"),
-		"secrecy":   engsecrecy.Run,
-		"crash":     engcrash.Run,
-		"store":     engstore.RunStore,
-		"stack":     engstore.RunStack,
-		"routing":   engrouting.Run,
-		"hash":      engcodec.RunHash,
-		"codec":     engcodec.RunCodec,
-		"infojson":  engcodec.RunInfoJSON,
-		"robust":    engrobust.Run,
+		"extract":      func(out string, _ int64, _ string) error { return extract.Run(cli.Repo, out) },
+		"time":         engtime.Run,
+		"node":         engnode.Run,
+		"net":          engnode.RunNet,
+		"reshare":      engnode.RunReshare,
+		"reshareapply": engnode.RunReshareApply,
+		"serve":        engnode.RunServe,
+		"bootstrap":    engnode.RunBootstrap,
+		"httpwait":     enghttp.Run,
+		"cache":        engcache.Run,
+		"cbstore":      engcbstore.Run,
+		"stream":       engstream.Run,
+		"sync":         engsync.Run,
+		"dkgrun":       engdkgrun.Run,
+		"dkgsm":        engdkg.Run("dkgsm", "C08"),
+		"dkgsig":       engdkg.Run("dkgsig", "C09"),
+		"secrecy":      engsecrecy.Run,
+		"crash":        engcrash.Run,
+		"store":        engstore.RunStore,
+		"stack":        engstore.RunStack,
+		"routing":      engrouting.Run,
+		"hash":         engcodec.RunHash,
+		"codec":        engcodec.RunCodec,
+		"infojson":     engcodec.RunInfoJSON,
+		"robust":       engrobust.Run,
 	})
 }
